@@ -16,10 +16,11 @@
      jose_cfg_get_err_misc      return c->err   <-- the HANDLER, not misc       (NULL dereferenced)
      jose_cfg_err(c, ...)       (c ? c : &dflt)->err((c ? c : &dflt)->misc, ...)  (NULL tolerated)
 
-   [variant] selects what jose_cfg_get_err_misc returns: [Current] is the code as
-   it is (returns the handler function pointer), [Fixed] the one-line repair
-   (returns misc).  tools/props/c17.py probes the implementation and runs the
-   model with the variant the code exhibits.
+   [variant] records the two places where the code departs from its header / its
+   siblings: what jose_cfg_get_err_misc returns ([Current]: the handler function
+   pointer; [Fixed]: misc) and whether jose_cfg_decref/jose_cfg_auto tolerate NULL
+   ([Current]: no).  tools/props/c17.py probes the implementation and runs the
+   model with the flags the code exhibits.
 
    Use of a freed context is undefined behaviour in C: the harness never does
    it (it tracks the count it created), and in the model an operation on a slot
@@ -31,7 +32,14 @@ Local Open Scope N_scope.
 Definition cid := N.     (* context slot *)
 Definition hid := N.     (* handler number, >= 1 *)
 
-Inductive variant := Current | Fixed.
+(* the two places where the code as it is departs from what its header documents / its siblings do;
+   each flag says which behaviour the running code has (probed on every run) *)
+Record variant := {
+  get_returns_misc : bool;    (* jose_cfg_get_err_misc: false = `return cfg->err;` (as is), true = `return cfg->misc;` *)
+  decref_null_ok : bool       (* jose_cfg_decref / jose_cfg_auto on NULL: false = dereferenced (as is), true = tolerated *)
+}.
+Definition Current : variant := {| get_returns_misc := false; decref_null_ok := false |}.
+Definition Fixed : variant := {| get_returns_misc := true; decref_null_ok := true |}.
 
 Record ctx := { refs : N; handler : option hid; misc : N }.
 
@@ -106,10 +114,9 @@ Definition do_decref (st : cstate) (c : cid) : cstate * cout :=
   end.
 
 Definition get_result (v : variant) (x : ctx) : cptr :=
-  match v with
-  | Current => match handler x with Some h => PHandler h | None => PDefault end   (* return cfg->err; *)
-  | Fixed => PMisc (misc x)                                                       (* return cfg->misc; *)
-  end.
+  if get_returns_misc v
+  then PMisc (misc x)                                                        (* return cfg->misc; *)
+  else match handler x with Some h => PHandler h | None => PDefault end.     (* return cfg->err; *)
 
 Definition cstep (v : variant) (st : cstate) (o : cop) : cstate * cout :=
   match o with
@@ -124,9 +131,9 @@ Definition cstep (v : variant) (st : cstate) (o : cop) : cstate * cout :=
       | None => (st, OSkip)
       | Some x => (with_ctxs st (cput c {| refs := refs x + 1; handler := handler x; misc := misc x |} (ctxs st)), OOk)
       end
-  | OpDecref None => (st, OCrash)
+  | OpDecref None => (st, if decref_null_ok v then OOk else OCrash)
   | OpDecref (Some c) => do_decref st c
-  | OpAuto None => (st, OCrash)
+  | OpAuto None => (st, if decref_null_ok v then OOk else OCrash)
   | OpAuto (Some c) => do_decref st c
   | OpSet None _ _ => (st, OCrash)
   | OpSet (Some c) h m =>
